@@ -168,7 +168,7 @@ def bmodCall (path : List Int) : Builtin :=
   else if path = [w [6], w [1,1]] then fun sp argv => do     -- isnan
     let vs ← matchArguments sp argv Val.isNumber (some [1])
     match vs with
-    | [.int _] => retV (.bool false)
+    | [.int n] => do let _ ← liftNum sp (Num.intToF n); retV (.bool false)
     | [.float x] => retV (.bool (F64.isNaN x))
     | [.complex r i] => retV (.bool (F64.isNaN r || F64.isNaN i))
     | _ => bottom
@@ -467,8 +467,9 @@ def keyOf (v : Val) : Comp Key :=
   let keyArg (a : Arg) : Comp Key := do let x ← forceArg a; callKey (.keyOf x)
   match v with
   | .int n => ret (Num.int n).key
-  | .float f => ret (Num.float f).key
-  | .complex r i => ret (Num.complex r i).key
+  | .float f => if F64.isNaN f then unmodelled "NaN in equality / dictionary key" else ret (Num.float f).key
+  | .complex r i =>
+    if F64.isNaN r || F64.isNaN i then unmodelled "NaN in equality / dictionary key" else ret (Num.complex r i).key
   | .bool b => ret (.bool b)
   | .str s => ret (.str s)
   | .bytes b => ret (.bytes b)
